@@ -77,6 +77,25 @@ class Ctx:
         self.rules.append(r)
         return r
 
+    def adopt(self, other_run, wanted):
+        """Run another property's rule module in a scratch context and take over the rules named in `wanted`
+        ({their id: id here}): the same instances are then decided under this property too."""
+        sub = Ctx(self.prop, self.tier, self.level)
+        other_run(sub)
+        for r in sub.rules:
+            if r.id in wanted:
+                old, new = r.id, wanted[r.id]
+                r.id = new
+                r.ctx = self
+                for v in r.violations:
+                    v.rule = new
+                    if v.key.startswith(old + ":"):
+                        v.key = new + v.key[len(old):]
+                for smp in r.samples:
+                    smp["rule"] = new
+                self.rules.append(r)
+        return sub
+
     def assume(self, s):
         if s not in self.assumptions:
             self.assumptions.append(s)
